@@ -126,9 +126,32 @@ def prelude_for(g, workdir):
     return p
 
 
-def overlay_map(g, workdir):
+def native_rewrites(g, workdir):
+    """noverride= options: source files of the package rewritten so that the named functions forward to the harness
+    stub while the harnesses that asked for it run (engine/ssaexport/rewrite.go); path in /repo -> rewritten copy"""
+    per_file = {}
+    for root, opts in g.roots.items():
+        for x in opts.get('noverride', '').split(';'):
+            if x:
+                f, tgt, stub = x.split(':')
+                per_file.setdefault(f, {}).setdefault((tgt, stub), []).append(root)
+    out = {}
+    for f, m in per_file.items():
+        src = os.path.join(g.absdir, f)
+        dst = os.path.join(workdir, g.key + '_rw_' + f.replace('/', '_'))
+        spec = ';'.join('%s=%s@%s' % (tgt, stub, '|'.join(sorted(roots))) for (tgt, stub), roots in sorted(m.items()))
+        r = subprocess.run([EXPORTER, '-rewrite', src, '-spec', spec, '-o', dst], capture_output=True, text=True)
+        if r.returncode:
+            raise RuntimeError('native override rewrite failed: ' + r.stderr)
+        out[src] = dst
+    return out
+
+
+def overlay_map(g, workdir, native=False):
     """virtual path under /repo -> real file"""
     ov = {}
+    if native:
+        ov.update(native_rewrites(g, workdir))
     ov[os.path.join(g.absdir, 'zz_verif_prelude.go')] = prelude_for(g, workdir)
     for f in g.files:
         ov[os.path.join(g.absdir, 'zz_verif_' + os.path.basename(f))] = f
@@ -184,9 +207,14 @@ def make_exec(ir, opts, tier):
         eo['expect_panic'] = True
     if opts.get('affine') == '1':
         eo['affine'] = True
-    if 'override' in opts:
+    if 'override' in opts or 'noverride' in opts:
         ov = {}
-        for pair in opts['override'].split(';'):
+        pairs = [x for x in opts.get('override', '').split(';') if x]
+        for x in opts.get('noverride', '').split(';'):
+            if x:   # file:Recv.name:stub -> the method (or function) name as the exporter prints it
+                _f, tgt, stub = x.split(':')
+                pairs.append((tgt.replace('.', ').') if '.' in tgt else tgt) + ':' + stub)
+        for pair in pairs:
             k, v = pair.split(':')
             ks = [n for n in ir['funcs'] if n == k or n.endswith('.' + k) or n.endswith('/' + k)]
             vs = [n for n in ir['funcs'] if n.endswith('.' + v)]
@@ -286,7 +314,7 @@ def run_pinned(task):
 # ------------------------------------------------------------------ native runs (replay, validation)
 def native_run(g, workdir, jobs, tag, timeout=900):
     """run jobs natively with go test -overlay; returns dict id -> (end, trace) or raises"""
-    ov = overlay_map(g, workdir)
+    ov = overlay_map(g, workdir, native=True)
     rootmap = '\n'.join('\t\t"%s": %s,' % (r, r) for r in sorted(g.roots))
     t = open(os.path.join(VERIF, 'engine', 'replay_test.go.tmpl')).read()
     t = t.replace('PKGNAME', g.pkgname).replace('ROOTMAP', rootmap)
@@ -384,7 +412,7 @@ def main():
         return replay_saved(a.replay)
     workdir = os.path.join(VERIF, '.work', '%s_%s_%d' % (prop, a.tier, os.getpid()))
     os.makedirs(workdir, exist_ok=True)
-    evid_path = os.path.join(VERIF, 'evidence', prop + '.json')
+    evid_path = os.path.join(os.environ.get('VERIF_EVIDENCE_DIR') or os.path.join(VERIF, 'evidence'), prop + '.json')
     os.makedirs(os.path.dirname(evid_path), exist_ok=True)
     if not os.path.exists(EXPORTER):
         r = subprocess.run(['go', 'build', '-o', 'ssaexport', '.'], cwd=os.path.dirname(EXPORTER), env=GOENV,
@@ -717,6 +745,10 @@ def save_replay(rd, g, root, v, tier, workdir):
         dst = os.path.join(rd, 'x_' + os.path.basename(f))
         shutil.copy(f, dst)
         ov[os.path.normpath(os.path.join(g.moddir, pkgdir, 'zz_verif_x_' + os.path.basename(f)))] = dst
+    for src, rw in native_rewrites(g, workdir).items():
+        dst = os.path.join(rd, 'rw_' + os.path.basename(src))
+        shutil.copy(rw, dst)
+        ov[src] = dst
     rootmap = '\n'.join('\t\t"%s": %s,' % (r, r) for r in sorted(g.roots))
     t = open(os.path.join(VERIF, 'engine', 'replay_test.go.tmpl')).read()
     t = t.replace('PKGNAME', g.pkgname).replace('ROOTMAP', rootmap)
